@@ -345,7 +345,7 @@ def gen_cases_2d(chk):
     rng = random.Random(chk.seed * 104729 + 8)
     quick = chk.tier == 'quick'
     cases = []
-    reps = 3 if quick else 14
+    reps = 5 if quick else 16
     for per1 in (False, True):
         for per2 in (False, True):
             for r in range(reps):
@@ -414,6 +414,25 @@ def check_1d(chk, c, r, stats):
                 chk.violation('spline_interpolators.collocation_matrix:%s' % tag,
                               'collocation matrix entry (%d,%d): exact %r, code %r on %s (cells %d)' % (bad + (tag, spd['nc'])),
                               dict(rep, observed=r['imat']))
+    # the interpolation points are the Greville abscissae (t_{j+1} + ... + t_{j+p})/p of the code's own knots (periodic:
+    # starting at j = p//2, reduced to the period), up to the rounding to 15 decimals; the uniform-cubic path has its own points
+    if not sp['cubic']:
+        T = sp['knots']
+        s0 = 1 + p // 2 if sp['periodic'] else 1
+        lo, hi = T[p], T[len(T) - 1 - p]
+        for i in range(nb):
+            g = sum(T[s0 + i:s0 + i + p]) / p
+            if sp['periodic']:
+                g = lo + (g - lo) % (hi - lo)
+            dgr = abs(float(g - sp['xs'][i]))
+            if sp['periodic']:
+                dgr = min(dgr, abs(dgr - float(hi - lo)))
+            if dgr > 4e-15 * max(1.0, abs(float(g)), float(hi - lo)):
+                chk.violation('splines.BSplines.greville:%s' % tag,
+                              'interpolation point %d is %r, the Greville abscissa of the knots is %r (%s, %d cells)'
+                              % (i, float(sp['xs'][i]), float(g), tag, spd['nc']), dict(rep, observed=r['xs']))
+                break
+        chk.cov['certificates_checked'] += 1
     for j, d in enumerate(c['data']):
         u = [qparse(t) for t in d.split()]
         cf = [qparse(t) for t in r['coeffs'][j].split()]
